@@ -58,6 +58,8 @@ def run(chk: Check):
             seqs.append(["dask_array", "xarray", m, "register"])
     seqs.append(["xarray", "dask_array", "dask_array.xarray", "dask_array._xarray"])          # never registers
     seqs.append(["dask_array._xarray", "xarray"])
+    seqs.append(["dask_array", "xarray", "register", "values-suite"])       # the "same values as NumPy-backed" half, operation by operation
+    seqs.append(["xarray", "dask_array.xarray", "register", "values-suite"])
     with ThreadPoolExecutor(14) as ex:
         results = list(ex.map(run_child, seqs))
     for actions, (res, err) in zip(seqs, results):
@@ -82,6 +84,21 @@ def run(chk: Check):
                 registered = True
                 if not ours or step.get("isactive") is not True:
                     chk.violation("register() did not activate dask_array's chunk manager", {"actions": actions, "steps": res}, signature={"class": "register-inactive"})
+            elif a == "values-suite":
+                for opname, r in (step.get("suite") or {}).items():
+                    chk.count("xarray-op:" + opname)
+                    chk.case(("xarray-op", opname, tuple(actions)), nontrivial=True)
+                    if "skipped" in r:
+                        chk.count("xarray-op-skipped:" + opname)
+                    elif r.get("equal") is not True:
+                        chk.violation(f"xarray operation `{opname}` on registered dask_array-backed objects " +
+                                      ("raises " + r["error"] if "error" in r else "differs from the NumPy-backed result"),
+                                      {"actions": actions, "operation": opname, "result": r}, signature={"class": "xarray-values", "op": opname})
+                    elif not r.get("lazy"):
+                        chk.count("xarray-op-not-lazy:" + opname)
+                        chk.traces_validated += 1
+                    else:
+                        chk.traces_validated += 1
             elif a == "compute":
                 if step.get("equal") is not True:
                     chk.violation("xarray computation on a registered dask_array-backed object differs from the NumPy-backed one (or raised)",
